@@ -154,6 +154,8 @@ class Exec(Engine):
         return V(t, tup_mk(t, [v.z for v in vals]))
 
     def ev_List(self, e, st):
+        if getattr(self.reg, 'dyn', False) and getattr(getattr(self.reg, 'current_unit', None), 'dyn_literals', True) and self.reg.dyn:
+            return self.dyn_literal(e, st, list(e.elts))
         out = []
         for s, vals in self.evs(e.elts, st):
             if _isR(vals): out.append((s, vals)); continue
@@ -169,7 +171,17 @@ class Exec(Engine):
         for i, v in enumerate(vals):
             z = list_mk(t, z3.Store(list_arr(t, z), i, self.store_val(st, v, et)), z3.IntVal(i + 1))
         return self.alloc(st, t, z)
+    def dyn_literal(self, e, st, parts):
+        from . import dyn
+        out = []
+        for s, vals in self.evs(parts, st):
+            if _isR(vals): out.append((s, vals)); continue
+            out.append((s, dyn.fresh('literal')))
+        return out
+
     def ev_Set(self, e, st):
+        if getattr(self.reg, 'dyn', False) and getattr(getattr(self.reg, 'current_unit', None), 'dyn_literals', True):
+            return self.dyn_literal(e, st, list(e.elts))
         out = []
         for s, vals in self.evs(e.elts, st):
             if _isR(vals): out.append((s, vals)); continue
@@ -180,6 +192,8 @@ class Exec(Engine):
             out.append((s, self.alloc(s, t, z)))
         return out
     def ev_Dict(self, e, st):
+        if getattr(self.reg, 'dyn', False) and getattr(getattr(self.reg, 'current_unit', None), 'dyn_literals', True):
+            return self.dyn_literal(e, st, [k for k in e.keys if k is not None] + list(e.values))
         if any(k is None for k in e.keys): raise Unsupported('dict unpacking')
         out = []
         for s, vals in self.evs(list(e.keys) + list(e.values), st):
@@ -706,7 +720,11 @@ class Exec(Engine):
         if m is not None:
             args = [self.unopt_if_known(st, a) for a in args]
             r = m(self, st, args, kwargs, node)
-            if r is None: raise Unsupported('model %s declined at %s' % (name, self.loc(node)))
+            if r is None:
+                if getattr(self.reg, 'dyn', False):
+                    from . import dyn
+                    return dyn.call_unknown(self, st, name, args, kwargs, node)
+                raise Unsupported('model %s declined at %s' % (name, self.loc(node)))
             return r
         o = self.reg.find_opaque(name)
         if o is not None:
